@@ -1,7 +1,369 @@
 package main
 
-import "fmt"
+import (
+	"fmt"
+	"go/ast"
+	"go/parser"
+	"go/token"
+	"path/filepath"
+	"reflect"
+	"strconv"
+)
+
+// Packages of the slip module whose synchronisation is put under the scheduler.
+var schedPkgs = []string{".", "pkg/gi", "pkg/generic", "pkg/clos", "pkg/flavors", "pkg/cl"}
+
+// Files whose channel operations are left alone (receive-only channel types that the generic shims
+// cannot take, background helpers, signal handling); their "sync" import is still rewritten.
+var schedChanSkip = map[string]string{
+	"pkg/gi/timechannel.go": "receive-only time channel (outside the controlled alphabet)",
+	"pkg/gi/select.go":      "select statement (outside the controlled alphabet)",
+	"pkg/gi/logger.go":      "background logger goroutine",
+	"pkg/gi/signal-wait.go": "os signal channel",
+}
+
+const (
+	vschedPath = "github.com/ohler55/slip/vsched"
+	vsyncPath  = "github.com/ohler55/slip/vsync"
+)
+
+func sel(pkg, name string) ast.Expr {
+	return &ast.SelectorExpr{X: ast.NewIdent(pkg), Sel: ast.NewIdent(name)}
+}
+
+func call(fun ast.Expr, args ...ast.Expr) *ast.CallExpr {
+	return &ast.CallExpr{Fun: fun, Args: args}
+}
+
+type schedRewriter struct {
+	fset    *token.FileSet
+	rel     string
+	chanTyp map[string]bool // named chan types of the package
+	report  []string
+	changed bool
+}
+
+func (r *schedRewriter) note(pos token.Pos, what string) {
+	r.report = append(r.report, fmt.Sprintf("%s:%d %s", r.rel, r.fset.Position(pos).Line, what))
+}
+
+func isArrow(e ast.Expr) (*ast.UnaryExpr, bool) {
+	for {
+		p, ok := e.(*ast.ParenExpr)
+		if !ok {
+			break
+		}
+		e = p.X
+	}
+	u, ok := e.(*ast.UnaryExpr)
+	return u, ok && u.Op == token.ARROW
+}
+
+// expr rewrites one expression (post-order).
+func (r *schedRewriter) expr(e ast.Expr) ast.Expr {
+	if e == nil {
+		return nil
+	}
+	r.walk(e)
+	if u, ok := isArrow(e); ok {
+		r.changed = true
+		r.note(u.Pos(), "recv -> vsched.Recv")
+		return call(sel("vsched", "Recv"), u.X)
+	}
+	if c, ok := e.(*ast.CallExpr); ok {
+		if id, ok := c.Fun.(*ast.Ident); ok && id.Name == "close" && len(c.Args) == 1 {
+			r.changed = true
+			r.note(c.Pos(), "close -> vsched.Close")
+			return call(sel("vsched", "Close"), c.Args[0])
+		}
+	}
+	return e
+}
+
+var exprType = reflect.TypeOf((*ast.Expr)(nil)).Elem()
+var stmtType = reflect.TypeOf((*ast.Stmt)(nil)).Elem()
+
+// walk rewrites the children of n in place.
+func (r *schedRewriter) walk(n ast.Node) {
+	if n == nil || reflect.ValueOf(n).IsNil() {
+		return
+	}
+	switch t := n.(type) {
+	case *ast.SelectStmt:
+		r.note(t.Pos(), "select left alone")
+		for _, cc := range t.Body.List {
+			if c, ok := cc.(*ast.CommClause); ok {
+				c.Body = r.stmts(c.Body) // the communication itself (c.Comm) is not touched
+			}
+		}
+		return
+	case *ast.AssignStmt:
+		if len(t.Lhs) == 2 && len(t.Rhs) == 1 {
+			if u, ok := isArrow(t.Rhs[0]); ok {
+				u.X = r.expr(u.X)
+				t.Rhs[0] = call(sel("vsched", "Recv2"), u.X)
+				r.changed = true
+				r.note(u.Pos(), "recv,ok -> vsched.Recv2")
+				for i := range t.Lhs {
+					t.Lhs[i] = r.expr(t.Lhs[i])
+				}
+				return
+			}
+		}
+	case *ast.ValueSpec:
+		if len(t.Names) == 2 && len(t.Values) == 1 {
+			if u, ok := isArrow(t.Values[0]); ok {
+				u.X = r.expr(u.X)
+				t.Values[0] = call(sel("vsched", "Recv2"), u.X)
+				r.changed = true
+				r.note(u.Pos(), "recv,ok -> vsched.Recv2")
+				return
+			}
+		}
+	case *ast.RangeStmt:
+		if r.isChanExpr(t.X, t) {
+			t.X = call(sel("vsched", "Range"), t.X)
+			r.changed = true
+			r.note(t.Pos(), "range over channel -> vsched.Range")
+			t.Body.List = r.stmts(t.Body.List)
+			return
+		}
+	case *ast.FuncDecl:
+		r.pushFunc(t)
+		defer r.popFunc()
+	}
+	v := reflect.ValueOf(n).Elem()
+	for i := 0; i < v.NumField(); i++ {
+		f := v.Field(i)
+		switch {
+		case f.Type() == exprType:
+			if !f.IsNil() {
+				f.Set(reflect.ValueOf(r.expr(f.Interface().(ast.Expr))))
+			}
+		case f.Type() == stmtType:
+			if !f.IsNil() {
+				out := r.stmts([]ast.Stmt{f.Interface().(ast.Stmt)})
+				f.Set(reflect.ValueOf(out[0]))
+			}
+		case f.Kind() == reflect.Slice && f.Type().Elem() == exprType:
+			for j := 0; j < f.Len(); j++ {
+				if !f.Index(j).IsNil() {
+					f.Index(j).Set(reflect.ValueOf(r.expr(f.Index(j).Interface().(ast.Expr))))
+				}
+			}
+		case f.Kind() == reflect.Slice && f.Type().Elem() == stmtType:
+			f.Set(reflect.ValueOf(r.stmts(f.Interface().([]ast.Stmt))))
+		case f.Kind() == reflect.Ptr || f.Kind() == reflect.Interface:
+			if !f.IsNil() {
+				if c, ok := f.Interface().(ast.Node); ok {
+					if _, isObj := f.Interface().(*ast.Object); !isObj {
+						r.walk(c)
+					}
+				}
+			}
+		case f.Kind() == reflect.Slice:
+			for j := 0; j < f.Len(); j++ {
+				e := f.Index(j)
+				if (e.Kind() == reflect.Ptr || e.Kind() == reflect.Interface) && !e.IsNil() {
+					if c, ok := e.Interface().(ast.Node); ok {
+						r.walk(c)
+					}
+				}
+			}
+		}
+	}
+}
+
+func (r *schedRewriter) stmts(list []ast.Stmt) []ast.Stmt {
+	for i, st := range list {
+		switch t := st.(type) {
+		case *ast.GoStmt:
+			r.changed = true
+			r.walk(t.Call)
+			if fl, ok := t.Call.Fun.(*ast.FuncLit); ok && len(t.Call.Args) == 0 {
+				r.note(t.Pos(), "go func(){..}() -> vsched.Go(func)")
+				list[i] = &ast.ExprStmt{X: call(sel("vsched", "Go"), fl)}
+			} else {
+				r.note(t.Pos(), "go f(x) -> vsched.Go(func(){f(x)}) [arguments now evaluated in the new thread]")
+				body := &ast.BlockStmt{List: []ast.Stmt{&ast.ExprStmt{X: t.Call}}}
+				list[i] = &ast.ExprStmt{X: call(sel("vsched", "Go"), &ast.FuncLit{Type: &ast.FuncType{Params: &ast.FieldList{}}, Body: body})}
+			}
+		case *ast.SendStmt:
+			r.changed = true
+			t.Chan = r.expr(t.Chan)
+			t.Value = r.expr(t.Value)
+			r.note(t.Pos(), "send -> vsched.Send")
+			list[i] = &ast.ExprStmt{X: call(sel("vsched", "Send"), t.Chan, t.Value)}
+		default:
+			r.walk(st)
+		}
+	}
+	return list
+}
+
+// ---- channel-typed identifiers, decided from declarations inside the file/package
+
+type funcScope struct{ vars map[string]ast.Expr }
+
+var scopes []funcScope
+
+func (r *schedRewriter) pushFunc(fd *ast.FuncDecl) {
+	fs := funcScope{vars: map[string]ast.Expr{}}
+	add := func(fl *ast.FieldList) {
+		if fl == nil {
+			return
+		}
+		for _, f := range fl.List {
+			for _, n := range f.Names {
+				fs.vars[n.Name] = f.Type
+			}
+		}
+	}
+	add(fd.Recv)
+	add(fd.Type.Params)
+	if fd.Body != nil {
+		ast.Inspect(fd.Body, func(n ast.Node) bool {
+			if vs, ok := n.(*ast.ValueSpec); ok && vs.Type != nil {
+				for _, nm := range vs.Names {
+					fs.vars[nm.Name] = vs.Type
+				}
+			}
+			if as, ok := n.(*ast.AssignStmt); ok && as.Tok == token.DEFINE && len(as.Lhs) == len(as.Rhs) {
+				for i, l := range as.Lhs {
+					id, ok := l.(*ast.Ident)
+					if !ok {
+						continue
+					}
+					// x := make(chan T, n) / make(Channel, n) / Channel(...)
+					if c, ok := as.Rhs[i].(*ast.CallExpr); ok {
+						if f, ok := c.Fun.(*ast.Ident); ok && f.Name == "make" && 0 < len(c.Args) {
+							fs.vars[id.Name] = c.Args[0]
+						} else if f, ok := c.Fun.(*ast.Ident); ok && r.chanTyp[f.Name] {
+							fs.vars[id.Name] = f
+						}
+					}
+				}
+			}
+			return true
+		})
+	}
+	scopes = append(scopes, fs)
+}
+
+func (r *schedRewriter) popFunc() { scopes = scopes[:len(scopes)-1] }
+
+func (r *schedRewriter) isChanType(t ast.Expr) bool {
+	switch tt := t.(type) {
+	case *ast.ChanType:
+		return tt.Dir == ast.SEND|ast.RECV
+	case *ast.Ident:
+		return r.chanTyp[tt.Name]
+	case *ast.ParenExpr:
+		return r.isChanType(tt.X)
+	}
+	return false
+}
+
+func (r *schedRewriter) isChanExpr(e ast.Expr, at ast.Node) bool {
+	switch t := e.(type) {
+	case *ast.Ident:
+		for i := len(scopes) - 1; 0 <= i; i-- {
+			if ty, ok := scopes[i].vars[t.Name]; ok {
+				return r.isChanType(ty)
+			}
+		}
+	case *ast.CallExpr: // conversion Channel(x)
+		if f, ok := t.Fun.(*ast.Ident); ok && r.chanTyp[f.Name] {
+			return true
+		}
+	case *ast.ParenExpr:
+		return r.isChanExpr(t.X, at)
+	}
+	return false
+}
+
+func addImport(f *ast.File, path string) {
+	for _, imp := range f.Imports {
+		if p, _ := strconv.Unquote(imp.Path.Value); p == path {
+			return
+		}
+	}
+	spec := &ast.ImportSpec{Path: &ast.BasicLit{Kind: token.STRING, Value: strconv.Quote(path)}}
+	for _, d := range f.Decls {
+		if gd, ok := d.(*ast.GenDecl); ok && gd.Tok == token.IMPORT {
+			gd.Specs = append(gd.Specs, spec)
+			if !gd.Lparen.IsValid() {
+				gd.Lparen = gd.Pos()
+				gd.Rparen = gd.End()
+			}
+			f.Imports = append(f.Imports, spec)
+			return
+		}
+	}
+	gd := &ast.GenDecl{Tok: token.IMPORT, Specs: []ast.Spec{spec}}
+	f.Decls = append([]ast.Decl{gd}, f.Decls...)
+	f.Imports = append(f.Imports, spec)
+}
 
 func rewriteSched(repo, out string, replace map[string]string) ([]string, error) {
-	return nil, fmt.Errorf("sched engine not implemented yet")
+	var rep []string
+	for _, shim := range []string{"vsched", "vsync"} {
+		r, err := mountShim(shim, repo, replace)
+		if err != nil {
+			return nil, err
+		}
+		rep = append(rep, r...)
+	}
+	for _, pkg := range schedPkgs {
+		dir := filepath.Join(repo, pkg)
+		files := goFiles(dir)
+		fset := token.NewFileSet()
+		parsed := map[string]*ast.File{}
+		chanTyp := map[string]bool{}
+		for _, path := range files {
+			f, err := parser.ParseFile(fset, path, nil, parser.ParseComments|parser.SkipObjectResolution)
+			if err != nil {
+				return nil, err
+			}
+			parsed[path] = f
+			for _, d := range f.Decls {
+				if gd, ok := d.(*ast.GenDecl); ok && gd.Tok == token.TYPE {
+					for _, s := range gd.Specs {
+						ts := s.(*ast.TypeSpec)
+						if ct, ok := ts.Type.(*ast.ChanType); ok && ct.Dir == ast.SEND|ast.RECV {
+							chanTyp[ts.Name.Name] = true
+						}
+					}
+				}
+			}
+		}
+		for _, path := range files {
+			f := parsed[path]
+			rel, _ := filepath.Rel(repo, path)
+			changed := rewriteImport(fset, f, "sync", "sync", vsyncPath)
+			if changed {
+				rep = append(rep, "sync->vsync "+rel)
+			}
+			if why, skip := schedChanSkip[filepath.ToSlash(rel)]; skip {
+				rep = append(rep, "chan-ops-left-alone "+rel+": "+why)
+			} else {
+				rw := &schedRewriter{fset: fset, rel: rel, chanTyp: chanTyp}
+				scopes = nil
+				for _, d := range f.Decls {
+					rw.walk(d)
+				}
+				if rw.changed {
+					addImport(f, vschedPath)
+					changed = true
+				}
+				rep = append(rep, rw.report...)
+			}
+			if changed {
+				if err := writeOut(fset, f, repo, out, path, replace); err != nil {
+					return nil, err
+				}
+			}
+		}
+	}
+	return rep, nil
 }
